@@ -22,6 +22,8 @@ func builtinChecks(e *Engine, prop, tier string) []*groupResult {
 		gs = append(gs, cellCodeCheck(e, "msToLines", 4, e.x.intTable1("render", "msEdgeTable"), e.x.intTable2("render", "msPairTable"), e.x.intTable2("render", "msLineTable"), 2, "msInterpolate"))
 		gs = append(gs, tablesImmutable(e, []string{"msEdgeTable", "msPairTable", "msLineTable"}))
 		return gs
+	case "C18":
+		return threadDBChecks(e)
 	case "C13":
 		return stlLayoutChecks(e)
 	case "C11":
